@@ -26,13 +26,19 @@ META = {
 import copy, os, pickle, random, warnings
 import numpy as np
 
+VERIF_ROOT = os.path.dirname(os.path.dirname(os.path.dirname(os.path.dirname(os.path.abspath(__file__)))))
+HARNESS = os.path.join(VERIF_ROOT, "harness")
+
 RTOL = 1e-9
 # stateless samplers whose plain sample(N, Nb) adapts during burn-in: sample(N, Nb) is not a suffix of sample(N+Nb, 0),
 # so their chain is reconstructed from the states reported at transition time instead of an independent second run
 ADAPTS_IN_SAMPLE = {"NUTS"}
 # attributes of the stateful samplers that a transition reads and replaces (compared after a checkpoint is loaded)
 STATE_ATTRS = ("current_point", "current_target_logd", "current_target_grad", "current_likelihood_logd", "scale",
-               "_scale_temp", "lambd", "_epsilon", "_epsilon_bar", "_H_bar", "max_depth")
+               "lambd", "_epsilon", "_epsilon_bar", "max_depth")
+# quantities only the warm-up adaptation reads: the property speaks of a checkpoint taken in the SAMPLING phase followed by
+# the transitions of the uninterrupted run, which do not depend on them; a difference is logged, not a violation
+TUNING_ATTRS = ("_scale_temp", "_H_bar")            # (NUTS reads _epsilon_bar in its first sampling transition)
 TAIL = 6     # extra transitions made after a behaviour that loaded a checkpoint (divergence may need a few steps to show)
 
 
@@ -71,6 +77,9 @@ class SamplerDriver:
         return self
 
     def hook_steps(self, rec):
+        from cuqiverif.core import MachineryError
+        if not callable(getattr(self.obj, "step", None)):
+            raise MachineryError("wrapper target %s.step is missing" % type(self.obj).__name__)
         obj, orig = self.obj, self.obj.step
 
         def step(*a, **k):
@@ -103,7 +112,7 @@ class SamplerDriver:
             p = os.path.join(self.workdir, "ckpt_%s.pickle" % tag)
             self.obj.save_checkpoint(p)
             return ("file", p)
-        if not self.obj._is_initialized:
+        if not getattr(self.obj, "_is_initialized", True):
             self.obj.initialize()      # get_state() is defined on an initialised sampler (save_checkpoint initialises itself)
         return ("mem", pickle.loads(pickle.dumps(self.obj.get_state())))
 
@@ -158,6 +167,9 @@ class LegacyGibbsDriver(HybridGibbsDriver):
         return self
 
     def hook_steps(self, rec):
+        from cuqiverif.core import MachineryError
+        if not callable(getattr(self.obj, "step", None)):
+            raise MachineryError("wrapper target %s.step is missing" % type(self.obj).__name__)
         obj, orig = self.obj, self.obj.step
 
         def step(cur):
@@ -200,16 +212,37 @@ def reference_run(driver, seed, warm, K):
 
 def run_behaviour(ctx, name, driver_cls, factory, case, seed, workdir, ref_cache, legacy_gibbs=False):
     """Execute one TLC behaviour (stateful interface) on fresh instances; compare after every operation."""
+    from cuqiverif.core import MachineryError
     warm, prog = case["warm"], case["prog"]
+    case = dict(case, seed=seed)          # the replay file must reproduce this run whatever VERIF_SEED the replay is given
     K = max([e["k"] for e in prog] + [1]) + 1 + TAIL
-    key = (name, warm)
-    if key not in ref_cache or len(ref_cache[key][0]["pt"]) <= K:
-        ref_cache[key] = reference_run(driver_cls(factory, workdir), seed, warm, max(K, 22))
-    rec, _ = ref_cache[key]
-    S, RNG = rec["pt"], rec["rng"]
+
+    def get_ref(w):
+        """reference run (uninterrupted, warm-up length w) -> (S, RNG), or None if it cannot be made"""
+        key = (name, w)
+        if key not in ref_cache or (ref_cache[key] is not None and len(ref_cache[key][0]["pt"]) <= K):
+            try:
+                ref_cache[key] = reference_run(driver_cls(factory, workdir), seed, w, max(K, 22))
+            except MachineryError:
+                raise
+            except Exception as ex:
+                # the plain uninterrupted run  construct . [warmup(W)] . sample(K)  does not deliver a chain
+                ref_cache[key] = None
+                ctx.mismatch("stateful/%s/error/reference" % name, dict(case, sampler=name),
+                             "the uninterrupted run warmup(%d).sample(%d) raised %s: %s" % (w, max(K, 22), type(ex).__name__, str(ex)[:200]))
+        if ref_cache[key] is None:
+            return None
+        return ref_cache[key][0]["pt"], ref_cache[key][0]["rng"]
 
     def sig(clause):
         return "stateful/%s/%s" % (name, clause)
+
+    ref = get_ref(warm)
+    if ref is None:
+        return
+    S, RNG = ref
+    ref_warm = warm             # warm-up length of the reference run the indices currently refer to
+    saved_ref_warm = warm
 
     drv = driver_cls(factory, workdir)
     np.random.seed(seed)
@@ -233,25 +266,35 @@ def run_behaviour(ctx, name, driver_cls, factory, case, seed, workdir, ref_cache
                     return
                 saved = drv.save("%s_%d" % (name, os.getpid()), how)
                 saved_k = e["k"]
+                saved_ref_warm = ref_warm
             elif op == "freshload":
                 if not drv.has_ckpt:
                     return
                 drv.fresh_load(saved)
+                if saved_ref_warm != ref_warm:          # the checkpoint was taken before a reinitialize(): back to that run
+                    ref_warm = saved_ref_warm
+                    ref = get_ref(ref_warm)
+                    if ref is None:
+                        return
+                    S, RNG = ref
                 # the loaded sampler must be in the state of the uninterrupted run at the checkpoint: compare the attributes
                 # a transition reads (chain point, cached evaluations, tuned parameters) with a twin run uninterrupted to k
                 twin = driver_cls(factory, workdir)
                 np.random.seed(seed)
                 twin.construct()
-                if warm:
-                    twin.warmup(warm)
-                if e["start"] - warm > 0:
-                    twin.sample(e["start"] - warm)
-                for attr in STATE_ATTRS:
+                if ref_warm:
+                    twin.warmup(ref_warm)
+                if e["start"] - ref_warm > 0:
+                    twin.sample(e["start"] - ref_warm)
+                for attr in STATE_ATTRS + TUNING_ATTRS:
                     if hasattr(twin.obj, attr) and hasattr(drv.obj, attr):
                         a, b = getattr(twin.obj, attr), getattr(drv.obj, attr)
                         if a is None or b is None or callable(a):
                             continue
                         if not _eq(a, b):
+                            if attr in TUNING_ATTRS:
+                                ctx.observations.setdefault("tuning_state_not_restored", {})["%s/%s" % (name, attr)] = True
+                                continue
                             ctx.mismatch(sig("resume_state/" + attr), dict(case, sampler=name, pos=pos),
                                          "after loading the checkpoint taken at k=%d into a fresh sampler, %s differs from the "
                                          "uninterrupted run at that point" % (e["start"], attr), a, b)
@@ -261,8 +304,12 @@ def run_behaviour(ctx, name, driver_cls, factory, case, seed, workdir, ref_cache
             elif op == "reinit":
                 if not drv.has_ckpt:
                     return
+                # both initialisations read the same random stream (some samplers draw while initialising)
+                rng_before = np.random.get_state()
                 drv.reinit()
-                st, fr = drv.state(), drv.fresh_state()
+                st = drv.state()
+                np.random.set_state(rng_before)
+                fr = drv.fresh_state()
                 ok = set(st) == set(fr) and all(
                     (st[q] is None and fr[q] is None) or (st[q] is not None and fr[q] is not None and _eq(st[q], fr[q]))
                     for q in st)
@@ -270,8 +317,19 @@ def run_behaviour(ctx, name, driver_cls, factory, case, seed, workdir, ref_cache
                     ctx.mismatch(sig("reinit"), dict(case, sampler=name, pos=pos),
                                  "state after reinitialize() differs from a freshly initialised sampler",
                                  expected={q: fr[q] for q in fr}, observed={q: st.get(q) for q in fr})
+                if not ok:
+                    return
+                if ref_warm != 0:
+                    # the warm-up is discarded with everything else: from here on the run of an un-warmed fresh sampler
+                    ref_warm = 0
+                    ref = get_ref(0)
+                    if ref is None:
+                        return
+                    S, RNG = ref
                 np.random.set_state(RNG[0])
                 seen_prefix = None
+        except MachineryError:
+            raise
         except Exception as ex:
             ctx.mismatch(sig("error/" + op), dict(case, sampler=name, pos=pos),
                          "operation %s raised %s: %s" % (op, type(ex).__name__, str(ex)[:200]))
@@ -279,7 +337,7 @@ def run_behaviour(ctx, name, driver_cls, factory, case, seed, workdir, ref_cache
         # ---- compare the projected state with the spec's prediction after this operation ----
         hist = e["hist"]
         if legacy_gibbs:
-            hist = [h for h in hist if h > warm]          # warm-up sweeps are not part of the returned chain
+            hist = [h for h in hist if h > ref_warm]      # warm-up sweeps are not part of the returned chain
         chain = drv.chain()
         ncol = chain.shape[1] if chain.size else 0
         clause = "resume" if e["start"] > 0 else ("continuity" if sum(1 for q in prog[:pos + 1] if q["op"] == "sample" and q["n"] > 0) > 1 else "chain")
@@ -391,6 +449,12 @@ def run_legacy(ctx, name, factory, N, Nb, seed, expected_ret, method="sample"):
             out = getattr(smp, method)(N, Nb)
     except Exception as ex:
         ctx.observations.setdefault("legacy_errors", {})["%s/%s/N=%d/Nb=%d" % (name, method, N, Nb)] = "%s: %s" % (type(ex).__name__, str(ex)[:100])
+        if log:
+            # not a refusal of the request (those are raised before anything is sampled, e.g. NUTS with adaptation and
+            # Nb = 0): transitions were made and reported to the callback, but no chain was delivered
+            ctx.case(("legacy", name, method, N, Nb))
+            ctx.mismatch(sig("error"), case, "%s(%d, %d) failed after %d transitions with %s: %s" % (
+                method, N, Nb, len(log), type(ex).__name__, str(ex)[:150]), "a chain of %d states" % N, "exception")
         return
     if not hasattr(out, "samples"):        # N + Nb == 1: the stateless interface returns a bare array
         a = np.asarray(out, dtype=float)
@@ -499,7 +563,7 @@ def record_own_runs(seed):
             np.random.seed(seed)
             for name, fac in zoo.stateful_factories().items():
                 s = fac(callback=lambda x, i: None)
-                s.warmup(3).sample(4)
+                s.warmup(7, 0.3).sample(4)        # tuning interval int(0.3 * 7) = 2: tuning is due after steps 2, 4, 6 only
                 s.get_samples()
                 s.sample(0).sample(2)
                 s.get_samples()
@@ -520,14 +584,24 @@ def record_repo_tests(workdir, tests=("tests/zexperimental/test_mcmc.py",), time
     from cuqiverif.core import MachineryError
     repo = os.environ.get("CUQIVERIF_REPO", "/repo")
     out = os.path.join(workdir, "repo_traces.json")
+    # the tests write files relative to the current directory (checkpoint.pickle, CUQI_samples/): run them in a scratch
+    # directory, so that nothing is left in the repository and concurrent checks cannot read each other's checkpoint
+    cwd = os.path.join(workdir, "pytest_cwd")
+    os.makedirs(cwd, exist_ok=True)
     env = dict(os.environ, CUQIPY_VERIF="1", CUQIVERIF_TRACE_OUT=out, CUQIVERIF_RECORD="life",
-               PYTHONPATH=os.path.join("/verif", "harness") + os.pathsep + repo, TQDM_DISABLE="1")
-    p = subprocess.run([sys.executable, "-m", "pytest", "-q", "-p", "no:cacheprovider", "-p", "cuqiverif.pytest_recorder",
-                        "-x", "--timeout=900"] + list(tests), cwd=repo, env=env, stdout=subprocess.PIPE,
-                       stderr=subprocess.STDOUT, text=True, timeout=timeout)
+               PYTHONPATH=HARNESS + os.pathsep + repo, TQDM_DISABLE="1", PYTHONDONTWRITEBYTECODE="1")
+    try:
+        p = subprocess.run([sys.executable, "-m", "pytest", "-q", "-p", "no:cacheprovider", "-p", "cuqiverif.pytest_recorder",
+                            "--timeout=900", "--rootdir", repo] + [os.path.join(repo, t) for t in tests], cwd=cwd, env=env,
+                           stdout=subprocess.PIPE, stderr=subprocess.STDOUT, text=True, timeout=timeout)
+    except subprocess.TimeoutExpired:
+        raise MachineryError("recording the repository's tests timed out after %ss" % timeout)
     if not os.path.exists(out):
         raise MachineryError("recorder plugin produced no trace file; pytest tail:\n" + "\n".join(p.stdout.splitlines()[-15:]))
-    return json.load(open(out)), p.returncode
+    # a test failing under the recorder does not cut the recording short (no -x); which ones failed is logged - the
+    # recorder must be transparent, so a test that passes without it and fails with it is a defect of the recorder
+    failed = [l.split(" ")[1] for l in p.stdout.splitlines() if l.startswith("FAILED ") and " " in l][:20]
+    return json.load(open(out)), {"returncode": p.returncode, "failed": failed}
 
 
 def trace_facet(ctx, workdir):
@@ -537,7 +611,7 @@ def trace_facet(ctx, workdir):
     src = ["own"] * len(traces)
     if ctx.tier == "thorough":
         rt, rc = record_repo_tests(workdir)
-        ctx.observe("repo_tests_recorded", {"traces": len(rt), "pytest_returncode": rc})
+        ctx.observe("repo_tests_recorded", {"traces": len(rt), "pytest": rc})
         traces += rt
         src += ["repo-tests"] * len(rt)
     verdicts = trace.validate(ctx, traces, "TraceSamplerLife", TRACE_CFG, extra_modules=("SamplerLife.tla",), label="c14trace")
@@ -618,7 +692,9 @@ def batch_facet(ctx, workdir):
             s = fac()
             s.sample(n, batch_size=b, sample_path=path)
         chain = _cols(s.get_samples().samples)
-        files = sorted(glob.glob(path + "batch_*.npz"))
+        import re as _re
+        files = sorted(glob.glob(path + "batch_*.npz"),
+                       key=lambda f: [int(t) if t.isdigit() else t for t in _re.split(r"(\d+)", os.path.basename(f))])
         ctx.case(("batch", b, n))
         sig = "batch/b=%d" % b
         if len(files) < len(c["dumped"]):
@@ -675,11 +751,14 @@ def run(ctx):
         r = ctx.tlc("SamplerLife", cfg="SamplerLife.%s.cfg" % cfg, workers=4, expect_violation=True)
         if r.ok or r.violated != inv:
             raise MachineryError("deviation %s did not violate %s (got %r): invariant is vacuous" % (cfg, inv, r.violated))
-    stateful = [c for c in res.cases if c["iface"] == "stateful"]
-    legacy = [c for c in res.cases if c["iface"] == "legacy"]
+    import json as _json
+    allcases = sorted(res.cases, key=lambda c: _json.dumps(c, sort_keys=True))     # TLC's workers emit in scheduling order
+    stateful = [c for c in allcases if c["iface"] == "stateful"]
+    legacy = [c for c in allcases if c["iface"] == "legacy"]
+    if not stateful or not legacy:
+        raise MachineryError("SamplerLife emitted no behaviours (stateful %d, stateless %d)" % (len(stateful), len(legacy)))
     rnd = random.Random(ctx.seed)
-    workdir = os.path.join(os.path.dirname(os.path.dirname(os.path.dirname(os.path.dirname(os.path.abspath(__file__))))), ".work",
-                           "c14-%d" % os.getpid())
+    workdir = os.path.join(VERIF_ROOT, ".work", "c14-%d" % os.getpid())
     os.makedirs(workdir, exist_ok=True)
     limit = 60 if ctx.tier == "quick" else 600
     ref_cache = {}
@@ -730,22 +809,48 @@ def run(ctx):
 
 def replay(ctx, case):
     from cuqiverif import zoo
+    from cuqiverif.core import MachineryError
+    import shutil
     os.environ.setdefault("TQDM_DISABLE", "1")
     warnings.filterwarnings("ignore")
-    workdir = os.path.join("/verif/.work", "c14-replay-%d" % os.getpid())
+    kind = case.get("kind")
+    if kind in ("trace", "model", "batch"):
+        # recorded executions / model runs / batch layouts are regenerated, not stored: re-run those facets
+        workdir = os.path.join(VERIF_ROOT, ".work", "c14-replay-%d" % os.getpid())
+        os.makedirs(workdir, exist_ok=True)
+        try:
+            if kind == "trace":
+                trace_facet(ctx, workdir)
+            elif kind == "batch":
+                batch_facet(ctx, workdir)
+            else:
+                res = ctx.tlc("SamplerLife", cfg="SamplerLife.%s.cfg" % ctx.tier, workers=16)
+                ctx.model_must_hold(res, "SamplerLife")
+        finally:
+            shutil.rmtree(workdir, ignore_errors=True)
+        return
+    workdir = os.path.join(VERIF_ROOT, ".work", "c14-replay-%d" % os.getpid())
     os.makedirs(workdir, exist_ok=True)
     name = case.get("sampler")
-    with zoo.quiet():
-        if case.get("kind") == "legacy":
-            fac = zoo.legacy_factories()[name]
-            N, Nb = case["N"], case["Nb"]
-            run_legacy(ctx, name, fac, N, Nb, case["seed"], list(range(Nb, N + Nb)), case["method"])
-            return
-        sf = zoo.stateful_factories()
-        hf = zoo.hybrid_gibbs_factories()
-        if name in sf:
-            run_behaviour(ctx, name, SamplerDriver, sf[name], case, 1000 + ctx.seed, workdir, {})
-        elif name in hf:
-            run_behaviour(ctx, name, HybridGibbsDriver, hf[name], case, 1000 + ctx.seed, workdir, {})
-        else:
-            run_behaviour(ctx, name, LegacyGibbsDriver, zoo.legacy_gibbs_factory(), case, 1000 + ctx.seed, workdir, {}, legacy_gibbs=True)
+    seed = case.get("seed", 1000 + ctx.seed)
+    try:
+        with zoo.quiet():
+            if kind == "legacy":
+                lf = zoo.legacy_factories()
+                if name not in lf:
+                    raise MachineryError("replay: unknown stateless sampler %r" % name)
+                N, Nb = case["N"], case["Nb"]
+                run_legacy(ctx, name, lf[name], N, Nb, case["seed"], list(range(Nb, N + Nb)), case["method"])
+                return
+            sf = zoo.stateful_factories()
+            hf = zoo.hybrid_gibbs_factories()
+            if name in sf:
+                run_behaviour(ctx, name, SamplerDriver, sf[name], case, seed, workdir, {})
+            elif name in hf:
+                run_behaviour(ctx, name, HybridGibbsDriver, hf[name], case, seed, workdir, {})
+            elif name == "legacy.Gibbs":
+                run_behaviour(ctx, name, LegacyGibbsDriver, zoo.legacy_gibbs_factory(), case, seed, workdir, {}, legacy_gibbs=True)
+            else:
+                raise MachineryError("replay: unknown sampler %r" % name)
+    finally:
+        shutil.rmtree(workdir, ignore_errors=True)
